@@ -355,6 +355,92 @@ func checkC01(c *Ctx) {
 			ro.Check(ok && bad == 0 && len(paths) > 0, f.Name(), "loop binds one value per iteration", loop.Pos(), "exactly one AddVar on each of "+itoa(len(paths))+" iteration paths", "a loop over a value slice binds zero or several values in one iteration: placeholders and values get out of step")
 			return true
 		})
+		// template expansion: the argument cursor advances exactly once for every placeholder that consumed an argument
+		if root.Obj.Name() == "Build" && f == root {
+			ast.Inspect(f.Body, func(n ast.Node) bool {
+				rs, ok := n.(*ast.RangeStmt)
+				if !ok {
+					return true
+				}
+				// cursor: identifier used as index into a value-role slice inside this loop
+				cursor := ""
+				ast.Inspect(rs.Body, func(x ast.Node) bool {
+					if ix, ok := x.(*ast.IndexExpr); ok {
+						if id, ok := unparen(ix.Index).(*ast.Ident); ok {
+							if sel, ok := unparen(ix.X).(*ast.SelectorExpr); ok {
+								if s := info.Selections[sel]; s != nil {
+									if _, isSrc := tc.sourceFields[asVar(s.Obj())]; isSrc {
+										cursor = id.Name
+									}
+								}
+							}
+						}
+					}
+					return true
+				})
+				if cursor == "" {
+					return true
+				}
+				c.Touch(f)
+				paths, ok := p.EnumLoopIterPaths(f, rs, 20000)
+				bad := 0
+				for _, nodes := range paths {
+					binds, incs := 0, 0
+					for _, nd := range nodes {
+						ast.Inspect(nd, func(x ast.Node) bool {
+							switch y := x.(type) {
+							case *ast.CallExpr:
+								if isAddVar(y) {
+									uses := false
+									for _, a := range y.Args {
+										ast.Inspect(a, func(z ast.Node) bool {
+											if id, ok := z.(*ast.Ident); ok && id.Name == cursor {
+												uses = true
+											}
+											return true
+										})
+									}
+									if uses {
+										binds++
+									}
+								}
+							case *ast.IncDecStmt:
+								if id, ok := y.X.(*ast.Ident); ok && id.Name == cursor && y.Tok == token.INC {
+									incs++
+								}
+							}
+							return true
+						})
+					}
+					// the slice-expansion arm binds through rv.Index(i) of reflect.ValueOf(expr.Vars[cursor]): count the
+					// cursor use in the reflect.ValueOf call as the consuming use
+					consumes := binds > 0
+					if !consumes {
+						for _, nd := range nodes {
+							ast.Inspect(nd, func(x ast.Node) bool {
+								if ce, ok := x.(*ast.CallExpr); ok && calleeName(info, ce) == "reflect.ValueOf" {
+									ast.Inspect(ce, func(z ast.Node) bool {
+										if id, ok := z.(*ast.Ident); ok && id.Name == cursor {
+											consumes = true
+										}
+										return true
+									})
+								}
+								return true
+							})
+						}
+					}
+					if consumes && incs != 1 {
+						bad++
+					}
+					if !consumes && incs != 0 {
+						bad++
+					}
+				}
+				ro.Check(ok && bad == 0, f.Name(), "argument cursor "+cursor+" advances once per consumed placeholder", rs.Pos(), itoa(len(paths))+" iteration paths", "a path through the template expansion consumes an argument without advancing the cursor (or advances it without consuming): later placeholders bind the wrong values")
+				return false
+			})
+		}
 		// empty-slice arms
 		ast.Inspect(f.Body, func(n ast.Node) bool {
 			ifs, ok := n.(*ast.IfStmt)
